@@ -78,7 +78,10 @@ var (
 	dmTVoid      = &dmTy{k: dmKVoid, name: "Void"}
 	dmTRange     = &dmTy{k: dmKRange, name: "InclusiveRange<Int>"}
 
-	dmNumTypes = []*dmTy{dmTInt, dmTInt, dmTInt, dmTInt8, dmTInt64, dmTUInt8, dmTUInt64, dmTWord8, dmTUFix64, dmTFix64, dmTInt256, dmTUInt}
+	dmNumTypes = []*dmTy{dmTInt, dmTInt, dmTInt, dmTInt8, dmTInt64, dmTUInt8, dmTUInt64, dmTWord8, dmTUFix64, dmTFix64, dmTInt256, dmTUInt,
+		{k: dmKInt, name: "Int16"}, {k: dmKInt, name: "UInt16"}, {k: dmKInt, name: "Int128"}, {k: dmKInt, name: "UInt128"}, {k: dmKInt, name: "UInt256"},
+		{k: dmKInt, name: "Word16"}, {k: dmKInt, name: "Word64"}, {k: dmKInt, name: "Word128"}, {k: dmKInt, name: "Word256"},
+		{k: dmKInt, name: "Fix128"}, {k: dmKInt, name: "UFix128"}, {k: dmKInt, name: "Int32"}, {k: dmKInt, name: "UInt32"}}
 )
 
 func dmOpt(t *dmTy) *dmTy         { return &dmTy{k: dmKOpt, elem: t} }
@@ -104,9 +107,11 @@ func (t *dmTy) isRes() bool {
 }
 
 func (t *dmTy) isSigned() bool {
-	return t.k == dmKInt && (strings.HasPrefix(t.name, "Int") || t.name == "Fix64")
+	return t.k == dmKInt && (strings.HasPrefix(t.name, "Int") || t.name == "Fix64" || t.name == "Fix128")
 }
-func (t *dmTy) isFix() bool  { return t.k == dmKInt && strings.HasSuffix(t.name, "Fix64") }
+func (t *dmTy) isFix() bool {
+	return t.k == dmKInt && (strings.HasSuffix(t.name, "Fix64") || strings.HasSuffix(t.name, "Fix128"))
+}
 func (t *dmTy) isWord() bool { return t.k == dmKInt && strings.HasPrefix(t.name, "Word") }
 
 // String renders the type without the resource marker.
